@@ -88,8 +88,12 @@ def _case(args):
             rec['str'] = outcome(ps, s)
             rec['bytes'] = outcome(pb, s.encode('ascii'))
             if not lexer.startswith('dynamic'):
-                rec['slice'] = outcome(ps, TextSlice(buf, a, b), shift=a)
-                rec['slice_bytes'] = outcome(pb, TextSlice(buf.encode('ascii'), a, b), shift=a)
+                ts_, tb_ = TextSlice(buf, a, b), TextSlice(buf.encode('ascii'), a, b)
+                if rng.random() < 0.5:
+                    # the same window OBJECT parsed before (a TextSlice is a value: using it must not change it)
+                    outcome(ps, ts_, shift=a); outcome(pb, tb_, shift=a); rec['window_object_used_before'] = True
+                rec['slice'] = outcome(ps, ts_, shift=a)
+                rec['slice_bytes'] = outcome(pb, tb_, shift=a)
             recs.append(rec)
             if parser == 'lalr' and rng.random() < 0.5:
                 # the same through on_error recovery over junk characters
